@@ -18,6 +18,8 @@ def main(argv=None):
     ap.add_argument("path", nargs="?", help="replay file (with 'replay')")
     ap.add_argument("--tier", default=os.environ.get("VERIF_TIER", "quick"), choices=["quick", "thorough"])
     a = ap.parse_args(argv)
+    if a.path:
+        a.path = os.path.abspath(a.path)   # bootstrap() moves the process into its sandbox directory
     env.bootstrap()
     from simv.core import engine
 
